@@ -99,6 +99,69 @@ def literal_number(node):
     return None
 
 
+FULL = ("slice", None, None, None)
+
+
+def _is_full(x):
+    return isinstance(x, tuple) and len(x) == 4 and x[0] == "slice" and x[3] is None and x[2] is None and \
+        (x[1] is None or (isinstance(x[1], Rat) and x[1].is_zero()))
+
+
+def _scalar_index(r):
+    """an integer-valued scalar index (constants and int / loop symbols only): x[i][j] is x[i, j] only for those"""
+    if r.is_const():
+        return True
+    for a in r.atoms(True):
+        if not (isinstance(a, Sym) and any(f in a.flags for f in ("int", "loopvar", "size"))):
+            return False
+    return True
+
+
+def canon_matrix_forms(v):
+    """One normal form for spellings of the same matrix expression:
+       U * w[None, :]            ->  dot(U, diagmat(w))          (column scaling is right-multiplication by a diagonal matrix)
+       x[i][j] / x[(i, j)]       ->  x[i, j]                     (for an integer / array first index)
+       x[a:b, :]                 ->  x[a:b]                      (trailing full slices address nothing)
+       reshape(x, (1, n))        ->  kept (callers strip a documented result shape themselves)"""
+    if isinstance(v, tuple):
+        return tuple(canon_matrix_forms(x) for x in v)
+    if not isinstance(v, Rat):
+        return v
+
+    def strip(idx):
+        if isinstance(idx, tuple) and not (idx and idx[0] == "slice"):
+            lst = [canon_matrix_forms(x) if isinstance(x, (Rat, tuple)) else x for x in idx]
+            while len(lst) > 1 and _is_full(lst[-1]) and not any(x is None for x in lst):
+                lst.pop()
+            return lst[0] if len(lst) == 1 else tuple(lst)
+        return canon_matrix_forms(idx) if isinstance(idx, Rat) else idx
+
+    def f(a):
+        if isinstance(a, Fn) and a.name in ("getitem", "setitem") and isinstance(a.args[0], (Rat, int, float)):
+            base = canon_matrix_forms(a.args[0]) if isinstance(a.args[0], Rat) else a.args[0]
+            idx = strip(a.args[1])
+            rest = tuple(canon_matrix_forms(x) if isinstance(x, (Rat, tuple)) else x for x in a.args[2:])
+            if a.name == "getitem" and isinstance(base, Rat):
+                inner = base.single_atom()
+                if isinstance(inner, Fn) and inner.name == "getitem" and isinstance(inner.args[1], Rat) and _scalar_index(inner.args[1]):
+                    j = idx if isinstance(idx, tuple) and not (idx and idx[0] == "slice") else (idx,)
+                    return Rat.atom(Fn("getitem", (inner.args[0], (inner.args[1],) + tuple(j))))
+            return Rat.atom(Fn(a.name, (base, idx) + rest))
+        return None
+    v = v.subst(f)
+    # column scaling
+    ts = v.terms()
+    if ts is not None and len(ts) == 1:
+        c, m = ts[0]
+        if abs(complex(c) - 1) < 1e-15 and len(m) == 2 and all(e == 1 for _, e in m):
+            (a1, _), (a2, _) = m
+            for row, mat in ((a1, a2), (a2, a1)):
+                if isinstance(row, Fn) and row.name == "getitem" and isinstance(row.args[1], tuple) and len(row.args[1]) == 2 \
+                        and row.args[1][0] is None and _is_full(row.args[1][1]) and isinstance(row.args[0], Rat):
+                    return Rat.atom(Fn("dot", (Rat.atom(mat), Rat.atom(Fn("diagmat", (row.args[0],))))))
+    return v
+
+
 _FXC = {}
 
 
